@@ -293,8 +293,11 @@ GenEvOK(ev) ==
       res == [i \in DOMAIN ev.res |-> SplOf(ev.res[i])]
   IN /\ For("C01") => (valid => ev.out = "ok" /\ GenPost(k, p, res)
                                 /\ (Has(ev, "ggrid") => ev.ggrid = Uniq(k)))
-     /\ For("C11") => IF valid THEN ev.out = "ok" ELSE Threw(ev, "out")
-     /\ For("C08") => (kv /\ ~match => Threw(ev, "out"))
+     /\ For("C11") => /\ IF valid THEN ev.out = "ok" ELSE Threw(ev, "out")
+                       \* the constructor alone accepts exactly the valid knot vectors (with a matching grid); the
+                       \* count check belongs to generateBSplines
+                       /\ (Has(ev, "ctor") => IF kv /\ match THEN ev.ctor = "ok" ELSE Threw(ev, "ctor"))
+     /\ For("C08") => (kv /\ ~match => Threw(ev, "out") /\ (Has(ev, "ctor") => Threw(ev, "ctor")))
      /\ For("C10") => (ev.out = "ok" => \A i \in DOMAIN res : SplValid(res[i]))
      /\ For("C14") => /\ (ev.out = "ok" /\ Has(ev, "grid_shared") => B(ev.grid_shared))
                        /\ ev.knots_after = k                                 \* the caller's knot vector stays as it was
